@@ -57,6 +57,10 @@ func (label *Label) UploadDescriptor(ctx context.Context, bundle *Bundle) (err e
 		}
 	}(time.Now())
 
+	err = model.ValidateLabelName(label.Descriptor.Name)
+	if err != nil {
+		return err
+	}
 	err = RepoExists(bundle.RepoID, bundle.contextStores)
 	if err != nil {
 		return err
